@@ -351,12 +351,14 @@ def plans_for(e, enums, tier):
     if tier.startswith("twin-"):
         # reduced product for the (slow) Dora twin: a single cartesian product
         th = tier.endswith("thorough")
-        cap = 60_000 if th else 3000
+        cap = 70_000 if th else 3000
         p = [(s[1] if th else s[2]) if s[3] else s[1] for s in sd]
         if th:
-            q = [s[1] if s[3] else s[0] for s in sd]
-            if _size(q) <= cap:
-                p = q
+            # complete immediate domains if they fit: on the boundary registers, else on two registers
+            for q in ([s[1] if s[3] else s[0] for s in sd], [s[2][:2] if s[3] else s[0] for s in sd]):
+                if _size(q) <= cap:
+                    p = q
+                    break
         while _size(p) > cap:
             # enum operands keep every variant
             cands = [i for i in range(len(p)) if len(p[i]) > 2 and e["slots"][i][1] not in ("Cond", "Extend", "Shift")]
@@ -367,7 +369,7 @@ def plans_for(e, enums, tier):
             # keep both ends and the middle of the list (boundary sets are sorted)
             p[i] = sorted({keep[0], keep[len(keep) // 2], keep[-1]}) if len(keep) > 4 else keep[:2]
         return [p]
-    cap = 600_000 if tier == "thorough" else 20_000
+    cap = 1_200_000 if tier == "thorough" else 20_000
     if kind == 1:
         cap = 400_000 if tier == "thorough" else 30_000
     lab = [i for i, (_, ty, _) in enumerate(e["slots"]) if ty == "Label"]
@@ -459,16 +461,21 @@ def write_plan(path, joined, enums, tier, llvm, mattr, scratch, threads, only=No
         if classify_refusals is None:
             classify_refusals = tier == "thorough"
         f.write("llvm %s\nmattr %s\nscratch %s\nthreads %d\nchunk %d\nroundtrip %d\nclassify_refusals %d\n" % (
-            llvm, mattr, scratch, threads, 32768 if tier == "quick" else 65536, 1 if roundtrip and tier != "quick" else 0,
+            llvm, mattr, scratch, threads, 32768 if tier == "quick" else 65536, 0,
             1 if classify_refusals else 0))
         f.write(extra)
         for e in joined["covered"]:
             if only and e["name"] not in only:
                 continue
-            ps = plans_for(e, enums, tier)
-            declared[e["name"]] = [[len(d) for d in p] for p in ps]
-            for p in ps:
-                f.write("job %s %d\n" % (e["name"], len(p)))
+            ps = [(p, 0) for p in plans_for(e, enums, tier)]
+            if tier == "thorough" and e["spec"].kind == 0:
+                # the quick tier's products first, with the full round trip (disassemble + re-assemble every word);
+                # the large products that follow skip the tuples already done and use the decoder only for words
+                # that are not bit-equal to llvm-mc's
+                ps = [(p, 1) for p in plans_for(e, enums, "quick")] + ps
+            declared[e["name"]] = [[len(d) for d in p] for p, _ in ps]
+            for p, rt in ps:
+                f.write("job %s %d %d\n" % (e["name"], len(p), rt if roundtrip else 0))
                 for d in p:
                     f.write(" ".join(str(v) for v in d) + "\n")
     return declared
